@@ -59,7 +59,9 @@ var c07Params = []string{`quantile((time() % 100) / 100, m0)`, `quantile by (a) 
 	`vector(scalar(max(m0)))`, `scalar(sum(m0))`, `m0 > bool time() % 13`}
 
 var c07Twins = []string{`abs({__name__=~"m.*"})`, `{__name__=~"m0|m1"} * 2`, `timestamp({__name__=~"m.+"})`, `sum by (a, b, c) (abs({__name__=~"m.*"}))`,
-	`clamp_min({__name__=~"m.*"}, 0)`, `1 + {__name__=~"m.*"}`, `{__name__=~"m.*"} > bool 1`, `ceil(-{__name__=~"m.*"})`, `deg({__name__=~"m.*"}) + on(a, b, c) m0`}
+	`clamp_min({__name__=~"m.*"}, 0)`, `1 + {__name__=~"m.*"}`, `{__name__=~"m.*"} > bool 1`, `ceil(-{__name__=~"m.*"})`, `deg({__name__=~"m.*"}) + on(a, b, c) m0`,
+	// a negation above an operator that has merged the equal label sets already
+	`-abs({__name__=~"m.*"})`, `-({__name__=~"m.*"} * 2)`, `-timestamp({__name__=~"m.+"})`, `-clamp_max({__name__=~"m.*"}, 100)`, `sum by (a) (-deg({__name__=~"m.*"}))`}
 
 // atTime extracts the samples of a canonical result at time t as a vector-typed result.
 func atTime(res Result, t int64) Result {
@@ -396,7 +398,7 @@ func (p c09Prop) Gen(seed uint64, tier string, i int) Case {
 			return r.Intn(len(sels))
 		}
 		c.Query = mk(pickSel(), pickSel(), r.Intn(len(c09Templates)), r.P(0.5))
-		if r.P(0.12) {
+		if r.P(0.2) {
 			a, b := "m0"+sels[pickSel()], nameless(sels[pickSel()])
 			if r.P(0.5) {
 				a, b = b, a
@@ -455,7 +457,7 @@ type c10Prop struct{}
 func (c10Prop) ID() string     { return "C10" }
 func (c10Prop) BatchSize() int { return 300 }
 func (c10Prop) Rule() string {
-	return "case = (dataset of <=12 series, assignment of every series to one of 1..4 partitions incl. empty ones, query, instant|range window); the distributed engine over the partitions is compared with a single engine over the union; quick/thorough start with all 3^n assignments of n<=5 series to 3 partitions for a fixed query list, then seeded random cases; non-trivial iff the central result is non-empty or an error"
+	return "case = (dataset of <=12 series, assignment of every series to one of 1..4 partitions incl. empty ones, query, instant|range window); the distributed engine over the partitions is compared with a single engine over the union; quick/thorough start with all 3^n assignments of n<=5 series to 3 partitions for a fixed query list, then seeded random cases (6% with two series that differ in the metric name only placed in different partitions, 8% with fallback-enabled engines over non-native sub-expressions); non-trivial iff the central result is non-empty or an error"
 }
 
 var c10Queries = []string{
@@ -472,6 +474,10 @@ var c10Queries = []string{
 	`topk(scalar(count(m1)) + 1, m0)`, `bottomk(1 * scalar(max(m1)), m0)`, `topk(scalar(count(m1)), m0)`, `topk by (a) (2 - scalar(min(m1)) / scalar(min(m1)), m0)`,
 	`quantile(scalar(count(m1)) / 10, m0)`, `time()`, `vector(time())`, `sum(vector(time()))`, `m0 * time()`, `clamp_min(m0, time() / 1000)`,
 }
+
+var c10Twins = []string{`rate({__name__=~"m.*"}[2m])`, `max_over_time({__name__=~"m.*"}[1m])`, `-{__name__=~"m0|m1"}`, `abs({__name__=~"m.*"})`, `{__name__=~"m.*"} * 2`,
+	`abs(rate({__name__=~"m.*"}[2m]))`, `-abs({__name__=~"m.*"})`, `abs(-{__name__=~"m.*"})`, `last_over_time({__name__=~"m.*"}[1m])`, `-last_over_time({__name__=~"m.*"}[1m])`,
+	`sum by (a) (rate({__name__=~"m.*"}[2m]))`, `max(-{__name__=~"m.*"})`, `count_over_time({__name__=~"m.*"}[30s])`, `timestamp({__name__=~"m.*"})`}
 
 var c10Fallback = []string{`round(m0)`, `sum by (a) (round(m0))`, `max_over_time(m0[2m:30s])`, `max(minute(m0))`, `sort(m0)`, `sum(m0) or sum(m1)`,
 	`count(m0 and on(a) m1)`, `sum by (a) (rate(m0[2m:15s]))`, `sgn(m0)`, `label_replace(m0, "d", "$1", "a", "(.*)")`, `count_values("v", m0)`}
@@ -528,6 +534,48 @@ func (c10Prop) Gen(seed uint64, tier string, i int) Case {
 	c.NParts = 1 + r.Intn(4)
 	for range c.Dataset.Series {
 		c.Parts = append(c.Parts, r.Intn(c.NParts))
+	}
+	if r.P(0.06) {
+		// series that differ in the metric name only, in different partitions, taking turns in time or
+		// overlapping: no remote engine sees both, the central one does
+		var ds Dataset
+		for _, sr := range c.Dataset.Series {
+			if sr.Labels["__name__"] != "h_bucket" && sr.Labels["__name__"] != "g_bucket" {
+				ds.Series = append(ds.Series, sr)
+			}
+		}
+		if len(ds.Series) == 0 {
+			ds.Series = append(ds.Series, Series{Labels: map[string]string{"__name__": "m0", "a": "x"}, Samples: GenSamples(r, c.Window, 0, false)})
+		}
+		n0 := len(ds.Series)
+		AddTwin(r, &ds, c.Window, 0, false, r.P(0.7))
+		c.Dataset = ds
+		c.NParts = 2 + r.Intn(2)
+		c.Parts = nil
+		for k := range c.Dataset.Series {
+			c.Parts = append(c.Parts, r.Intn(c.NParts))
+			if k >= n0 {
+				c.Parts[k] = (c.Parts[0] + 1) % c.NParts // provisional, fixed below
+			}
+		}
+		// the twin is the last series; put it into another partition than its source (the series with
+		// the same labels but for the name)
+		if len(c.Dataset.Series) > n0 {
+			tw := c.Dataset.Series[len(c.Dataset.Series)-1]
+			for k, sr := range c.Dataset.Series[:n0] {
+				same := len(sr.Labels) == len(tw.Labels)
+				for ln, lv := range sr.Labels {
+					if ln != "__name__" && tw.Labels[ln] != lv {
+						same = false
+					}
+				}
+				if same {
+					c.Parts[len(c.Parts)-1] = (c.Parts[k] + 1) % c.NParts
+				}
+			}
+		}
+		c.Query = Pick(r, c10Twins)
+		return c
 	}
 	if r.P(0.08) {
 		// engines with the fallback enabled (the default configuration): parts of the query that the
